@@ -9,7 +9,7 @@ RULE = ("C18: semaphores of both fairness modes with 0..3 permits, blocking acqu
 
 def run(tier):
     feats = ("spawn", "join", "yield", "atomic", "rand", "sem", "sem", "sem", "mutex", "rwlock", "park")
-    res = run_prog_check("C18", PROPS, tier, ["objects:C18:C03"], features=feats, n_quick=5000, n_thorough=80000, rule=RULE, focus=["sem", "acq", "acq"], focus_n=(3000, 60000), exhaustive=["sem", "acq"], exh_n=(60, 600))
+    res = run_prog_check("C18", PROPS, tier, ["objects:C18:C03", "acqfifo"], features=feats, n_quick=5000, n_thorough=80000, rule=RULE, focus=["sem", "acq", "acq"], focus_n=(3000, 60000), exhaustive=["sem", "acq"], exh_n=(60, 600))
     if isinstance(res, int):
         return res
     ctx, cases, mo, io = res
